@@ -176,6 +176,7 @@ ROUND9 = {
 }
 ROUND10 = {
  "C01": " Borrows C12's Have-path scenario.",
+ "C02": " Three-party scenario outside end game (12pc-idle-holder-announces); recorded finding idle-holder-not-asked-for-a-freed-piece is reported and explored past.",
  "C03": " Directories named like the start of the previous entry's directory.",
  "C05": " Duplicate info keys in different length spellings.",
  "C08": " Choke / Unchoke before the handshake while pieces complete elsewhere.",
